@@ -1,12 +1,13 @@
-(* The three partial machine-integer operations behind the known findings of C16 (F3, F11), as
-   explicit Panic results.
+(* The machine-integer operations behind the findings of C16 (F3a, F3b, F11), with explicit Panic
+   results where the code can panic (1 and 3; 2 is total since the repair of F3b).
 
    1. numeral tokens: `pair.as_str().parse().unwrap()` on a token of the grammar rule
         integer / numeral = "0" | "-"? nonzero-digit digit*           (isize)
         arity             = "0" | nonzero-digit digit*                (usize)
       (src/parsing/asp/mini_gringo/pest.rs:43,164; src/parsing/fol/sigma_0/pest.rs:92,217)
-   2. the TPTP rendering of a negative numeral: `let m = n.abs();` (src/formatting/fol/sigma_0/
-      tptp.rs:41) - overflow check in debug builds for isize::MIN
+   2. the TPTP rendering of a negative numeral: `let m = n.unsigned_abs();` (src/formatting/fol/
+      sigma_0/tptp.rs:41), a usize: total, isize::MIN renders as $uminus(9223372036854775808)
+      (finding F3b, repaired: the former `n.abs()` overflowed on isize::MIN in debug builds)
    3. `max_taken_var + i` in choose_fresh_global_variables (src/translating/formula_representation/
       tau_star.rs:35), usize, overflow check in debug builds. *)
 From Coq Require Import List Ascii String ZArith NArith Bool.
@@ -61,11 +62,9 @@ Definition parse_usize (tok : string) : outcome N :=
   | None => NotAToken
   end.
 
-(* Display for tptp::Format<IntegerTerm::Numeral(n)>, debug build; n is an isize *)
+(* Display for tptp::Format<IntegerTerm::Numeral(n)>; n is an isize, n.unsigned_abs() a usize *)
 Definition tptp_numeral (n : Z) : outcome string :=
-  if (n <? 0)%Z then
-    if (n =? isize_min)%Z then Panic                     (* n.abs(): attempt to negate with overflow *)
-    else Value ("$uminus(" ++ nat_str (Z.to_N (- n)) ++ ")")
+  if (n <? 0)%Z then Value ("$uminus(" ++ nat_str (Z.to_N (- n)) ++ ")")
   else Value (nat_str (Z.to_N n)).
 
 (* the name of the i-th fresh global variable, `"V" + (max_taken_var + i).to_string()`, debug build *)
